@@ -24,6 +24,7 @@ type params struct {
 	NoPayload bool
 	Ops   []int // store-conc: 4 op indexes (thread A: 0,1; thread B: 2,3)
 	Close string // conn: which stream is closed mid-way: none upR upU down
+	Refuse string // conn: the broker refuses the resume of this upstream (answer without alias, i.e. alias 0); aliases are numbered from 0
 	F     int
 	P     int
 }
@@ -34,6 +35,9 @@ func (p params) name() string {
 		return fmt.Sprintf("store-seq/depth%d/nopayload%v", p.Depth, p.NoPayload)
 	case "store-conc":
 		return fmt.Sprintf("store-conc/%v/nopayload%v", p.Ops, p.NoPayload)
+	}
+	if p.Refuse != "" {
+		return fmt.Sprintf("conn/close-%s/refuse-%s/F%d/P%d", p.Close, p.Refuse, p.F, p.P)
 	}
 	return fmt.Sprintf("conn/close-%s/F%d/P%d", p.Close, p.F, p.P)
 }
@@ -148,6 +152,9 @@ func scenarios(tier string) []vlib.Scenario {
 		add(params{Kind: "conn", Close: cl, F: 1})
 	}
 	add(params{Kind: "conn", Close: "none", F: 0, P: 1})
+	// a refused resume of one stream (response without alias) must not disturb the stream that holds alias 0
+	add(params{Kind: "conn", Close: "none", Refuse: "upU", F: 1})
+	add(params{Kind: "conn", Close: "none", Refuse: "upR", F: 1})
 	if tier == "thorough" {
 		for _, cl := range []string{"none", "upR", "upU", "down"} {
 			add(params{Kind: "conn", Close: cl, F: 2})
@@ -304,7 +311,15 @@ func (w *world) concOracle(v *vlib.Verdict) {
 // ---- conn: reliable up + unreliable up + downstream on one connection ----
 
 func (w *world) script() *sim.Script {
-	s := &sim.Script{Unreliable: true}
+	s := &sim.Script{Unreliable: true, AliasFromZero: w.p.Refuse != ""}
+	if w.p.Refuse != "" {
+		s.UpResumeResult = func(c *sim.BConn, u *sim.UpStream, attempt int) message.ResultCode {
+			if (w.p.Refuse == "upR" && u.Ord == 0) || (w.p.Refuse == "upU" && u.Ord == 1) {
+				return message.ResultCodeStreamNotFound
+			}
+			return message.ResultCodeSucceeded
+		}
+	}
 	w.rxn = map[string]int{}
 	s.Fault = func(c *sim.BConn, dir string, m message.Message) sim.FaultKind {
 		if w.Phase != "traffic" {
@@ -511,6 +526,9 @@ func (w *world) connOracle(res *vsched.Result, v *vlib.Verdict) {
 			}
 		}
 		for _, u := range w.Ups {
+			if w.p.Refuse != "" && u.Name != w.p.Refuse && kit.ReportedClosed(u.Closed) && w.cuts <= 1 {
+				v.Fail("C07.close-isolation", "closed-with-refused-"+w.p.Refuse, "%s was reported closed although only the resume of %s was refused", u.Name, w.p.Refuse)
+			}
 			if kit.ReportedClosed(u.Closed) && w.cuts == 0 {
 				v.Fail("C07.close-isolation", "stream-closed-with-other", "%s was reported closed although only %s was closed", u.Name, w.p.Close)
 			}
